@@ -186,6 +186,7 @@ func GenLayout(r *rand.Rand, p Profile) *Layout {
 	}
 	// ---- abstract types over entities
 	relOwnerHome := -1
+	relOwnerTarget := ""
 	var ifaceImpl []string
 	if p.Interface && len(entNames) >= 2 {
 		n := 2 + r.IntN(len(entNames)-1)
@@ -201,6 +202,7 @@ func GenLayout(r *rand.Rand, p Profile) *Layout {
 		relOwnerHome = -1
 		if p.IfaceRel {
 			relOwner = entNames[r.IntN(len(entNames))]
+			relOwnerTarget = relOwner
 			relOwnerType = gen.Named(relOwner, false)
 			if r.IntN(2) == 0 {
 				// a list of entities directly on the interface (batch entity fetch below an abstract parent)
@@ -321,7 +323,8 @@ func GenLayout(r *rand.Rand, p Profile) *Layout {
 			td.Fields = append(td.Fields, &gen.Field{Name: fn, Type: vt})
 			g.l.Fields[coord(en, fn)] = &FieldInfo{Owners: []int{pick(r, homes)}}
 		}
-		if len(ifaceImpl) > 0 && r.IntN(4) == 0 {
+		if len(ifaceImpl) > 0 && (r.IntN(4) == 0 || (p.IfaceRel && en == relOwnerTarget)) {
+			// (with IfaceRel the target of relOwner always leads on to an abstract position)
 			td.Fields = append(td.Fields, &gen.Field{Name: "relNode", Type: gen.Named("Node", false)})
 			g.l.Fields[coord(en, "relNode")] = &FieldInfo{Owners: []int{pick(r, homes)}}
 		}
